@@ -27,6 +27,7 @@ def seg_score(orc, a, b):
     return float(orc.lf.linear_fit_residuals_points(pt))
 
 
+@core.safe_case
 def chain(ctx, pts, cfg, family):
     n = len(pts)
     prev = None
